@@ -2,7 +2,7 @@
 (* GEN: the complete decision table, one case per row and per position of  *)
 (* the wrong byte, for the harness to materialise on carrier packages.      *)
 EXTENDS Digests, TLC, Json, IOUtils, SequencesExt
-Cases == { [d |-> d, pos |-> p] : d \in Rows, p \in {"first", "middle", "last", "short", "long"} }
+Cases == { [d |-> d, pos |-> p] : d \in Rows, p \in {"first", "middle", "last", "short", "long", "second"} }
 Useful(c) == c.pos = "first" \/ c.d.md5 = "mismatch" \/ c.d.sha1 = "mismatch" \/ c.d.sha256 = "mismatch" \/ c.d.payload = "mismatch"
 VARIABLE done
 Init == done = FALSE
